@@ -192,7 +192,7 @@ Unsupported(B, s) ==
          \/ (B = "mysql" /\ s.kind = "update" /\ Len(s.from) > 0 /\ (Len(s.orders) > 0 \/ ~IsNone(s.limit)))     \* multi-table UPDATE has no ORDER BY / LIMIT
     [] s.kind = "insert" -> (B = "pg" /\ s.replace) \/ (s.ins.source.k = "select" /\ Unsupported(B, s.ins.source.q))
                             \/ (B = "sqlite" /\ ~IsNone(s.on_conflict) /\ s.ins.dv > 0 /\ Len(s.ins.cols) = 0 /\ s.ins.source.k = "none")   \* no upsert on DEFAULT VALUES
-    [] s.kind = "withq" -> Unsupported(B, s.q)
+    [] s.kind = "withq" -> Unsupported(B, s.q) \/ ~IsNone(s.q.with)         \* WITH .. WITH .. is no dialect's statement
     [] OTHER -> FALSE
 
 \* first difference between what was parsed (p) and what is expected (x): a clause name
